@@ -283,7 +283,7 @@ Section LRUP.
     exists w', c11_lru_step V true w o = C11_ok w' /\ Rl w' ws'.
   Proof.
     intros [s r] [l rs] o ws' [HI Hr] Hs. cbn [fst snd] in *.
-    destruct o as [k v | k | | | n |]; cbn [c11_lrus_step c11_lru_step fst snd] in *.
+    destruct o as [k v | k | | | n | |]; cbn [c11_lrus_step c11_lru_step fst snd] in *.
     - injection Hs as <-. destruct (insert_ok s l k v HI) as (s' & Hi & HI' & Hfr). rewrite Hi. simpl. rewrite Hfr. simpl.
       eexists; split; [reflexivity |]. split; auto.
     - pose proof (touch_ok s l k HI) as Ht. destruct (c11_assoc V k l) as [v |].
@@ -296,6 +296,7 @@ Section LRUP.
     - destruct (n <=? length l) eqn:E; [| discriminate]. apply Nat.leb_le in E. injection Hs as <-.
       destruct (resize_ok s l n HI E) as (s' & Hp & HI'). rewrite Hp. simpl. eexists; split; [reflexivity |]. split; auto.
     - injection Hs as <-. eexists; split; [reflexivity |]. split; auto. simpl. eapply clear_ok; eauto.
+    - injection Hs as <-. eexists; split; [reflexivity |]. split; auto.
   Qed.
 
   Lemma finds_ok s l : Iv s l -> forall ks,
